@@ -263,9 +263,11 @@ def altenc_events(rnd: random.Random, n: int) -> t.List[t.Dict[str, t.Any]]:
                                 filter=FilterOptions(string_encoding=enc))
         for _ in range(n):
             m = msggen.r_message(rnd)
-            m = _retext(m, rnd, alphabet)
-            if m is not None:
-                out.append(codec_event(m, opts=opts, enc=enc))
+            try:
+                m = _retext(m, rnd, alphabet)
+            except Exception:  # noqa: BLE001  a value the helper cannot rebuild is simply not used for this family
+                continue
+            out.append(codec_event(m, opts=opts, enc=enc))
     return out
 
 
@@ -282,11 +284,10 @@ def _retext(obj: t.Any, rnd: random.Random, alphabet: str, depth: int = 0) -> t.
         return "".join(rnd.choice(alphabet) for _ in range(min(len(obj), 40) or rnd.randrange(0, 3)))
     if isinstance(obj, list):
         return [_retext(x, rnd, alphabet, depth + 1) for x in obj]
-    if dataclasses.is_dataclass(obj) and depth < 12:
-        try:
-            return dataclasses.replace(obj, **{f.name: _retext(getattr(obj, f.name), rnd, alphabet, depth + 1) for f in dataclasses.fields(obj) if f.init})
-        except Exception:  # noqa: BLE001
-            return None
+    if dataclasses.is_dataclass(obj):
+        if depth >= 200:
+            raise ValueError("too deep to re-text")
+        return dataclasses.replace(obj, **{f.name: _retext(getattr(obj, f.name), rnd, alphabet, depth + 1) for f in dataclasses.fields(obj) if f.init})
     return obj
 
 
